@@ -135,6 +135,8 @@ class LowerLinalgBody_contract:
             check("a body of exactly one expandable kernel op is expanded", not single)
         else:
             check("only a body consisting of exactly one kernel op (plus the yield) is replaced by that kernel's arithmetic", single)
+            if not single:
+                return
             rep = [e for e in ret if e[0] == "replace_op"]
             check("the whole generic is replaced once", len(rep) == 1 and rep[0][1] is lop and len(rep[0][2]) == 1)
             new = rep[0][2][0]
@@ -312,6 +314,9 @@ class dispatching_rules_contract:
         check("canary: nothing is dispatched anywhere", not ret[0] and not ret[1])
 
 
+from pyvc.api import performing_rewriter  # noqa: E402
+
+
 class DOp(Operation):
     """an op of the function body with ghost dispatch flags (the rules are used through their contract)"""
 
@@ -387,7 +392,8 @@ class DispatchRegionsRewriter_contract:
         return all(not (o.dm and o.comp) for o in a[1])
 
     def run(sh, a):
-        rw = PatternRewriter(a[0])
+        # the compute phase walks the function the data-mover phase has just rewritten: insertions and detaches are PERFORMED
+        rw = performing_rewriter(a[0])
         dr.DispatchRegionsRewriter(sh["cores"], None).match_and_rewrite(a[0], rw)
         return rw.log
 
